@@ -1,4 +1,5 @@
 import ModbusModel.Lemmas.Write
+import ModbusModel.Props.C17
 /-
   C16 – Abandoned and timed-out calls leave a usable, uncorrupted client.
 -/
@@ -65,6 +66,63 @@ theorem lifetime_whole_frames (ops : List Op) (c : Client) (t : Transport) (sent
       rw [hk] at this
       simpa [stepOp, OpResult.effects, writtenBytes] using this
     | disconnect ext => exact absurd rfl (hnodisc _ (by simp) ext)
+
+/-- the asynchronous session underneath a blocking session never disconnects -/
+theorem asyncSession_no_disconnect (ops : List SyncOp) (to : Bool) :
+    ∀ op ∈ asyncSession to ops, ∀ e, op ≠ .disconnect e := by
+  induction ops generalizing to with
+  | nil => simp [asyncSession]
+  | cons o ops ih =>
+    cases o with
+    | setTimeout on => simpa [asyncSession] using ih on
+    | call req ext d =>
+      intro op hop e
+      simp only [asyncSession, SyncOp.asyncOf, Option.toList, List.cons_append, List.nil_append,
+        List.mem_cons] at hop
+      rcases hop with rfl | hop
+      · simp
+      · exact ih to op hop e
+    | typed top ext d =>
+      intro op hop e
+      simp only [asyncSession, SyncOp.asyncOf, Option.toList, List.cons_append, List.nil_append,
+        List.mem_cons] at hop
+      rcases hop with rfl | hop
+      · simp
+      · exact ih to op hop e
+    | setSlave id =>
+      intro op hop e
+      simp only [asyncSession, SyncOp.asyncOf, Option.toList, List.cons_append, List.nil_append,
+        List.mem_cons] at hop
+      rcases hop with rfl | hop
+      · simp
+      · exact ih to op hop e
+
+/-- **abandon_invariant (blocking lifetime)**: over any session of the blocking client – calls and
+    typed methods that time out at any poll, completed ones, slave changes, timeouts switched on
+    and off – the bytes the transport has received, followed by the bytes still buffered, are
+    a concatenation of whole request frames -/
+theorem blocking_lifetime_whole_frames (ops : List SyncOp) (s : SyncContext) (t : Transport)
+    (sent : Bytes) (h : WholeFrames s.asyncCtx.kind (sent ++ s.asyncCtx.wbuf)) :
+    WholeFrames s.asyncCtx.kind
+      (sent ++ writtenBytes ((runSync s t ops).1.flatMap SyncOpResult.effects)
+        ++ (runSync s t ops).2.1.asyncCtx.wbuf) := by
+  rw [Props.C17.sync_session_same_effects, Props.C17.sync_session_simulates]
+  exact lifetime_whole_frames _ s.asyncCtx t sent h (asyncSession_no_disconnect ops s.timeout)
+
+/-- … in particular from every way of connecting the blocking client (premises satisfiable) -/
+theorem blocking_lifetime_from_connect (k : Kind) (slave : Option UInt8) (to : Bool)
+    (ops : List SyncOp) (t : Transport) :
+    WholeFrames k
+      (writtenBytes ((runSync (SyncContext.connect k slave to) t ops).1.flatMap SyncOpResult.effects)
+        ++ (runSync (SyncContext.connect k slave to) t ops).2.1.asyncCtx.wbuf) := by
+  have hk : (SyncContext.connect k slave to).asyncCtx.kind = k := by
+    cases slave <;> cases k <;> simp [SyncContext.connect, Client.attach, Client.attachSlave]
+  have hw : (SyncContext.connect k slave to).asyncCtx.wbuf = [] := by
+    cases slave <;> cases k <;> simp [SyncContext.connect, Client.attach, Client.attachSlave, Client.wbuf]
+  have := blocking_lifetime_whole_frames ops (SyncContext.connect k slave to) t []
+    (by rw [hw]; exact WholeFrames.nil)
+  rw [hk] at this
+  simpa using this
 
 /-- a call's send phase is over only when everything buffered – the rest of an abandoned
     frame and the call's own frame – has been handed to the transport -/
